@@ -177,6 +177,19 @@ fn plant(src: &mut Src) -> Planted {
         ("sort_by(`[\"é\", \"b\"]`, &length(to_array(@)) > `0`)", "sort_by(", "InvalidReturnType"),
         ("`[1, 2]`[::0]", "[::0]", "InvalidSlice"),
         ("`[1]`[1:2:0]", "[1:2:0]", "InvalidSlice"),
+        // the slice is followed by more of the chain: the error still points into the slice
+        ("`[{\"a\": 1}]`[::0].a", "[::0]", "InvalidSlice"),
+        ("`[[1], [2]]`[0::0][1:]", "[0::0]", "InvalidSlice"),
+        ("`[[1], [2]]`[::0][*]", "[::0]", "InvalidSlice"),
+        ("`[{\"a\": [1]}]`[:1:0].a[0].b.c", "[:1:0]", "InvalidSlice"),
+        ("`[1, 2]`[::0] | [0]", "[::0]", "InvalidSlice"),
+        ("`[1, 2]`[1:][::0].\"é\"", "[::0]", "InvalidSlice"),
+        // calls followed by more of the chain / more calls
+        ("abs('é').a.b", "abs(", "InvalidType"),
+        ("nope(@)[0].length(@)", "nope(", "UnknownFunction"),
+        ("length(abs(`1`), nope2(@))", "nope2(", "UnknownFunction"),
+        ("[abs(`-1`), length(`1`), abs(`2`)]", "length(", "InvalidType"),
+        ("to_array(`1`)[*].abs('x')", "abs(", "InvalidType"),
     ];
     let (ftext, marker, kind) = faults[src.below(faults.len())];
     let at = ftext.find(marker).expect("marker");
@@ -340,11 +353,12 @@ pub fn property() -> Property {
             "an invalid-slice error may point anywhere between the brackets of the slice (inclusive)".into(),
             "exactly one fault is planted per case".into(),
         ],
+        minimise: None,
         subs: vec![
             Sub::Custom(CustomSub { name: "cases", run: fixed_cases, replay: replay_case }),
-            Sub::Bytes(BytesSub { name: "compile-errors", f: compile_errors, max_len: 1200, quick: Budget { threads: 8, cases: 5000 }, thorough: Budget { threads: 16, cases: 200_000 } }),
-            Sub::Bytes(BytesSub { name: "planted", f: planted, max_len: 64, quick: Budget { threads: 8, cases: 4000 }, thorough: Budget { threads: 16, cases: 100_000 } }),
-            Sub::Bytes(BytesSub { name: "arbitrary", f: arbitrary, max_len: 2500, quick: Budget { threads: 8, cases: 4000 }, thorough: Budget { threads: 16, cases: 150_000 } }),
+            Sub::Bytes(BytesSub { name: "compile-errors", f: compile_errors, max_len: 1200, quick: Budget { threads: 8, cases: 5000 }, thorough: Budget { threads: 16, cases: 200_000 }, keep_unreproducible: false }),
+            Sub::Bytes(BytesSub { name: "planted", f: planted, max_len: 64, quick: Budget { threads: 8, cases: 4000 }, thorough: Budget { threads: 16, cases: 100_000 }, keep_unreproducible: false }),
+            Sub::Bytes(BytesSub { name: "arbitrary", f: arbitrary, max_len: 2500, quick: Budget { threads: 8, cases: 4000 }, thorough: Budget { threads: 16, cases: 150_000 }, keep_unreproducible: false }),
         ],
     }
 }
